@@ -167,3 +167,21 @@ Definition pre_raise (L : loop_skel) : option pyexn :=
   | Some n => if Nat.eqb n 2 then None else Some TypeError
   | None => None
   end.
+
+(* ---- constructor wiring of the server classes (Generated/GenFrontends.server_wiring) ------- *)
+
+(* how a server constructor computes an attribute its handlers later read *)
+Inductive wsrc :=
+| WOrDefault (param default : string)      (* self.x = <param> or <default>                 *)
+| WKwDefault (key default : string)        (* self.x = kwargs.get('<key>', <default>)       *)
+| WUpdate (param : string)                 (* if isinstance(identity, …): control.Identity.update(identity) *)
+| WBuilt (cls : string).                   (* built by the server itself (serial handler)   *)
+
+(* what the handlers get, given what the user passed (None: nothing / a false value) *)
+Definition configured {A} (s : wsrc) (given : option A) (dflt : A) : A :=
+  match s with
+  | WOrDefault _ _ | WKwDefault _ _ | WUpdate _ => match given with Some x => x | None => dflt end
+  | WBuilt _ => dflt
+  end.
+
+Definition user_configurable (s : wsrc) : bool := match s with WBuilt _ => false | _ => true end.
